@@ -111,6 +111,14 @@ fn one(ctx: &mut Ctx, rng: &mut Rng, d_ns: i128, place: Place, code: u8) {
     // reads the clock twice and assumes that nothing has passed in between meets a clock that has moved on
     let tick: i64 = if d_ns <= 10_000_000_000 { *rng.pick(&[1000i64, 1, 37, 1000, 250_000, 1_000_000]) } else { 1000 };
     vclock::enable_pure(2, JITTER, rng.next(), tick, 0);
+    // in part of the cases signal handlers of the caller cut naps short (the sleep call comes back with EINTR and the
+    // time that was left): the waiting goes on for the rest of the nap, not for a whole new one
+    let naps_interrupted = d_ns <= 3_600_000_000_000 && !matches!(place, Place::NeverLongSuspend) && rng.chance(300);
+    if naps_interrupted {
+        plan::seed(rng.next());
+        plan::add(plan::Rule { kind: k::NANOSLEEP, scope: plan::SCOPE_PARENT, nth: 0, fd: -1, act: plan::ACT_FAIL, val: libc::EINTR as i64, prob: 450 });
+        ctx.count("waits_whose_naps_are_interrupted_by_signal_handlers", 1);
+    }
     let truth = ExitStatus::Exited(code as u32);
     let dur = Duration::new((d_ns / 1_000_000_000) as u64, (d_ns % 1_000_000_000) as u32);
     let label = format!("{:?}", place).split('(').next().unwrap().to_string();
@@ -171,7 +179,10 @@ fn one(ctx: &mut Ctx, rng: &mut Rng, d_ns: i128, place: Place, code: u8) {
     if let Some(off) = exit_off {
         vclock::plan_exit(t0 + off, fifo_fd, pid, b'x', code);
     }
+    let naps_cut_before = crate::interpose::NAP_INTERRUPTIONS.load(SeqCst);
     let m = run::monitored(|| p.wait_timeout(dur));
+    let naps_cut = (crate::interpose::NAP_INTERRUPTIONS.load(SeqCst) - naps_cut_before) as i128;
+    ctx.count("naps_cut_short", naps_cut as i64);
     let t1 = vclock::now_ns() as i64;
     let elapsed = (t1 - t0) as i128;
     let waits = plan::count(plan::SCOPE_PARENT, k::WAIT4) - wait_before;
@@ -193,7 +204,8 @@ fn one(ctx: &mut Ctx, rng: &mut Rng, d_ns: i128, place: Place, code: u8) {
         .set("status_checks", J::i(waits as i64))
         .set("sleeps", J::i(sleeps as i64))
         .set("events_tail", J::arr_s(&ilog::fmt_tail(&evs, 16)));
-    let slack = JITTER as i128 + ticks + MS as i128;
+    // (every resumed piece of a nap may oversleep by the jitter once more)
+    let slack = JITTER as i128 * (1 + naps_cut) + ticks + MS as i128;
     vclock::NEVER_EXITS_PID.store(0, SeqCst);
     if place == Place::Stopped {
         unsafe { crate::interpose::real_kill(pid, libc::SIGCONT) };
